@@ -321,7 +321,13 @@ func (p *Pipeline) writeBatch(b *batch) error {
 		}
 	}
 	var rf strings.Builder
-	fmt.Fprintf(&rf, fileHeaderRef, b.name, importLines(b.progs))
+	var refProgs []*Outcome
+	for _, o := range b.progs {
+		if !o.Prog.NoRef && !o.Prog.Native {
+			refProgs = append(refProgs, o)
+		}
+	}
+	fmt.Fprintf(&rf, fileHeaderRef, b.name, importLines(refProgs))
 	nref := 0
 	for _, o := range b.progs {
 		if o.Prog.NoRef || o.Prog.Native {
